@@ -56,7 +56,7 @@ class Run:
         self.timings = {}
         self.exec_stats = {'calls': 0, 'forks': 0, 'merges': 0, 'pruned': 0}
         self.unwinding = []
-        self.cvc5 = {'checked': 0, 'agree': 0, 'unknown': 0}
+        self.cvc5 = {'checked': 0, 'agree': 0, 'unknown': 0, 'skipped': 0, 'seconds': 0.0}
         self.extra = {}
         self.prog = None
         self.tables = None
@@ -171,8 +171,18 @@ class Run:
             out[qid] = (verdict, model)
         return out
 
-    def cvc5_recheck(self, q, timeout=120):
-        r = solve.cvc5_check(q, timeout)
+    def cvc5_recheck(self, q, timeout=30):
+        """second opinion in the thorough tier, inside a time budget per worker process (VERIF_CVC5_BUDGET seconds,
+        default 240): queries beyond the budget are counted as skipped, never as agreed"""
+        import time
+        budget = float(os.environ.get('VERIF_CVC5_BUDGET', '240'))
+        spent = self.cvc5.get('seconds', 0.0)
+        if spent >= budget:
+            self.cvc5['skipped'] = self.cvc5.get('skipped', 0) + 1
+            return
+        t0 = time.time()
+        r = solve.cvc5_check(q, min(timeout, max(1.0, budget - spent)))
+        self.cvc5['seconds'] = spent + (time.time() - t0)
         self.cvc5['checked'] += 1
         if r == q.verdict:
             self.cvc5['agree'] += 1
@@ -191,7 +201,7 @@ class Run:
         r.stubs = set()
         r.selftest = {'cases': 0, 'mismatches': 0, 'what': []}
         r.exec_stats = {'calls': 0, 'forks': 0, 'merges': 0, 'pruned': 0}
-        r.cvc5 = {'checked': 0, 'agree': 0, 'unknown': 0}
+        r.cvc5 = {'checked': 0, 'agree': 0, 'unknown': 0, 'skipped': 0, 'seconds': 0.0}
         r.solver_time = 0.0
         r.extra = {}
         r.is_sub = True
